@@ -102,7 +102,9 @@ func cleanSuffix(val any) any {
 		for k, v := range t {
 			parts := strings.Split(k, "#")
 
-			result[parts[0]] = cleanSuffix(v)
+			// multiple keys differing only in the suffix refer to the same property (elements of
+			// a list defined by different variables) and are merged
+			result[parts[0]] = merge(result[parts[0]], cleanSuffix(v))
 		}
 
 		return result
